@@ -17,6 +17,9 @@ Protocol handler for C20 (benchmark functions).  Floats travel as bit patterns (
   rotate <Minv;rows> <xs>            … | error
   noise <rep0|rep1|each:bits> <result> <draws>   → noisy result + number of unused draws | bad-tape
   bound <kind> <xs>                  → xs
+  rand <xs> <draws>                  → the draw + number of unused draws | bad-tape
+  stack <t> <Minv;rows> <factor> <xs> argument reaching the function under @translate @rotate @scale
+  mpinit <dim> <fns> <uh> <uw> {<draw>}*   state built by MovingPeaks.__init__ + unused draws
   mpcall <basis|none> <xs> {<fn> <pos> <h> <w>}*  → value | error
   mpchange … / mpcount …              see `mpChange`, `mpCount`
 -/
@@ -263,6 +266,24 @@ def handle : List String → String
   | "mpcall" :: basis :: xs :: rest =>
     match (do let b ← parseOptFloat basis; let x ← fl xs; let p ← parsePeaks4 rest; pure (call p b x)) with
     | some r => showO r
+    | none => "bad-op"
+  | ["rand", xs, draws] =>
+    match (do let x ← fl xs; let d ← fl draws; pure (Bench.rand x d)) with
+    | some (some (v, rest)) => showFloat v ++ " " ++ toString rest.length
+    | some none => "bad-tape"
+    | none => "bad-op"
+  | ["stack", v, m, f, xs] =>
+    match (do let v ← fl v; let m ← fl2 m; let f ← fl f; let x ← fl xs; pure (stackArg v m f x)) with
+    | some r => showOL r
+    | none => "bad-op"
+  | "mpinit" :: dim :: fns :: uh :: uw :: draws =>
+    match (do let dim ← parseNat dim
+              let fns ← (if fns = "-" then some [] else fns.toList.mapM (fun (c : Char) => parseFn c.toString))
+              let uh ← parseFloat uh; let uw ← parseFloat uw
+              let tape ← draws.mapM parseDraw
+              pure (initPeaks dim fns uh uw tape)) with
+    | some (some (peaks, rest)) => showPeaks peaks ++ " " ++ toString rest.length
+    | some none => "bad-tape"
     | none => "bad-op"
   | "mpchange" :: rest => mpChange rest
   | "mpcount" :: rest => mpCount rest
